@@ -132,6 +132,9 @@ def main(argv):
             return 0
         import re
         build_secs = 0.0
+        if a.only and not any(re.search(a.only, h.name) for s in suites for h in s.harnesses):
+            print("INCONCLUSIVE --only %r matches no harness of %s (%s tier)" % (a.only, prop, a.tier))
+            return 2
         for s in suites:
             if a.only:
                 s.harnesses = [h for h in s.harnesses if re.search(a.only, h.name)]
